@@ -309,6 +309,42 @@ theorem grideval_lists_iff (dims : List (Dim α)) (coef : Int → α) (coords : 
 
 end
 
+/-! ## 8. grid evaluation agrees with the pointwise evaluation *routine* (model level, exact arithmetic) -/
+section
+variable {α : Type} [Field α] [LinearOrder α] [IsStrictOrderedRing α]
+attribute [local instance] Arith.ofField
+
+/-- **C17 at model level.**  For a well-formed table (C01's `Table.WF`, row-major strides) and any grid,
+the value `grideval` stores at a grid index equals what the pointwise routine `ndsplineeval` (C01's model
+of the evaluation code: margin loops, de Boor recurrence, block walk) returns at that grid point, for
+every grid point the lookup accepts that lies below the last knot in every dimension and is not in the
+configuration of C01's known finding (`NonDegenerate`).  Composition of `grideval_get_eq_pointwise_inside`
+with `C01_eval_eq_spec_partial`; exact arithmetic on both sides (rounding is the envelope of the check). -/
+theorem grideval_get_eq_ndsplineeval (T : Table α) (coords : List (List α)) (hT : T.WF)
+    (hs : StridesRowMajor T.dims) (hlen : coords.length = T.dims.length) :
+    ∃ nd, gridEval T.dims T.coef coords = some nd ∧ nd.ranges = coords.map List.length ∧
+      ∀ g xs cs, gridPoint coords g = some xs →
+        @searchCenters α (cmpLO α) (T.dims.map Dim.axis) xs = .ok cs →
+        List.Forall₂ (fun d x => x < d.knots ((d.nknots : Int) - 1) ∧ NonDegenerate d x) T.dims xs →
+        nd.get g = ndsplineeval T xs cs 0 := by
+  have hne : T.dims ≠ [] := by
+    intro h; have := hT.stride; rw [h] at this; exact this
+  have hg : GridTableWF T.dims := ⟨hne, fun d hd => (hT.dims d hd).naxes_eq, hs⟩
+  obtain ⟨nd, h1, h2, h3⟩ := grideval_get_eq_pointwise_inside T.dims T.coef coords hg
+    (fun d hd => (hT.dims d hd).mono) hlen
+  refine ⟨nd, h1, h2, fun g xs cs hgp hsc hx => ?_⟩
+  have hxl : T.dims.length = xs.length := by rw [gridPoint_length coords g xs hgp, hlen]
+  have hnd : ∀ (ds : List (Dim α)) (ys : List α),
+      List.Forall₂ (fun d x => x < d.knots ((d.nknots : Int) - 1) ∧ NonDegenerate d x) ds ys →
+      AllNonDegenerate ds ys := by
+    intro ds ys h
+    induction h with
+    | nil => trivial
+    | cons hd _ ih => exact ⟨hd.2, ih⟩
+  rw [h3 g xs hgp hx, C01_eval_eq_spec_partial T xs cs hT hxl (hnd _ _ hx) hsc]
+
+end
+
 /-- Non-vacuity: a 2×3×2 tensor over `Rat` with two entries, a 3×4 matrix, `dim = 1`. -/
 example :
     let a : NdSparse Rat := ⟨[2,3,2], [([1,2,0], 5), ([0,1,1], -2)]⟩
@@ -503,5 +539,22 @@ example :
   refine ⟨degTable_gridWF, rfl, rfl, [2], ⟨rfl, by decide⟩, ?_⟩
   simp [basisProd, posL, degTable, PsV.Bind, indR]
   norm_num
+
+/-- Non-vacuity of `grideval_get_eq_ndsplineeval`: C01's example table (order 2, knots 0..6, stride 1),
+the one-point grid `x = 7/2`, accepted by the lookup with centre 3, below the last knot, non-degenerate. -/
+example : (⟨[⟨2, 7, 4, 1, fun i => (i : Rat)⟩], fun _ => 1⟩ : Table Rat).WF ∧
+    StridesRowMajor [(⟨2, 7, 4, 1, fun i => (i : Rat)⟩ : Dim Rat)] ∧
+    gridPoint ([[7/2]] : List (List Rat)) [0] = some [7/2] ∧
+    @searchCenters Rat (cmpLO Rat) [Dim.axis (⟨2, 7, 4, 1, fun i => (i : Rat)⟩ : Dim Rat)] [(7/2 : Rat)] = .ok [3] ∧
+    List.Forall₂ (fun (d : Dim Rat) x => x < d.knots ((d.nknots : Int) - 1) ∧ NonDegenerate d x)
+      [(⟨2, 7, 4, 1, fun i => (i : Rat)⟩ : Dim Rat)] [(7/2 : Rat)] := by
+  refine ⟨⟨?_, rfl⟩, rfl, rfl, ?_, ?_⟩
+  · intro d hd
+    simp only [List.mem_singleton] at hd
+    subst hd
+    exact ⟨by decide, rfl, fun i j _ hij _ => by show ((i:Int):Rat) ≤ ((j:Int):Rat); exact_mod_cast hij⟩
+  · simp [searchCenters, searchAxis, Dim.axis, bsearch, Cmp.lt, Cmp.le]
+    norm_num
+  · exact List.Forall₂.cons ⟨by norm_num, Or.inl (by norm_num)⟩ List.Forall₂.nil
 
 end PsV
